@@ -7,6 +7,7 @@ import NeoModel.Proofs.Persist
 import NeoModel.Proofs.PersistReset
 import NeoModel.Proofs.PersistEqSync
 import NeoModel.Proofs.PersistJump
+import NeoModel.Proofs.PersistResetMulti
 import NeoModel.Generated.Stages
 namespace NeoModel.Persist
 
@@ -208,18 +209,22 @@ theorem reset_resumable_of_consistent_node (H : Hist) {B S : Nat} (hB : 1 < B) (
       recover H B S d5 = .ok n' ∧ recover H B S d6 = .ok n' :=
   reset_resumable_of_inv H hB n n' hn hc t bs hreset hbs
 
-/-- **reset_resumable** (every boundary between complete stages): for the stopped node of ANY GC-free schedule
-(empty write cache), every target and batch size: the database after each complete stage of `reset n t` —
-first marker, block removal, storage copy, header reset, MPT/transfer reset, SeekGC — reopens to exactly the
-node of the uninterrupted reset. -/
+/-- **reset_resumable** — the full statement. For the stopped node `n` of ANY GC-free schedule (empty write cache),
+every target `t` and every batch size `S`: the batches of `reset n t` are
+`b1 :: b2 ++ [c3, c4, c5, c6, stageDone]` (sync point + first marker; the block-removal stage, `b2`, as many
+batches as `S` requires; storage copy; header reset; MPT/transfer reset; SeekGC; marker removal) and the database
+after EVERY prefix of that list reopens to exactly the node `n'` of the uninterrupted reset:
+after `b1` and after any number of intermediate batches of the block removal (`∀ j < b2.length`, `j = 0` is the
+database right after `b1`), after each complete stage (`d2 … d6`), and after the last batch (`n'.db`).
+(Old DESIGN §6 item 7 — the multi-batch removal was not idempotent — is settled positively by the kept headers.) -/
 theorem reset_resumable (H : Hist) {B S : Nat} (hB : 1 < B) (ops : List Op) (hno : ∀ o ∈ ops, o.isGc = false)
     (hc : (run H B ops).1.cache = []) (t : Nat) (bs : List Batch) (n' : Node)
     (hreset : reset H B S (run H B ops).1 t = .ok (bs, n')) (hbs : bs ≠ []) :
     let n := (run H B ops).1
     let b1 := ofWrites [(Key.syncPoint, some (Val.ptr t)), marker stJumpStarted]
     let d1 := applyBatch b1 n.db
-    ∃ (b2 : List Batch) (d2 : Db) (cur x r : Nat) (p0 : Bool),
-      stageBlocks H S t cur d1 = .ok (b2, d2) ∧ d2 = foldBatches b2 d1 ∧
+    ∃ (b2 : List Batch) (d2 : Db) (x r : Nat) (p0 : Bool),
+      stageBlocks H S t n.height d1 = .ok (b2, d2) ∧ d2 = foldBatches b2 d1 ∧
       let c3 := stageCopy t p0 d2
       let c4 := stageHeaders B t n.hdrHeight p0
       let c5 := stageMpt t r
@@ -229,10 +234,20 @@ theorem reset_resumable (H : Hist) {B S : Nat} (hB : 1 < B) (ops : List Op) (hno
       let d5 := applyBatch c5 d4
       let d6 := applyBatch c6 d5
       bs = b1 :: b2 ++ [c3, c4, c5, c6, stageDone] ∧ n'.db = applyBatch stageDone d6 ∧
-      recover H B S d1 = .ok n' ∧ recover H B S d2 = .ok n' ∧ recover H B S d3 = .ok n' ∧
-      recover H B S d4 = .ok n' ∧ recover H B S d5 = .ok n' ∧ recover H B S d6 = .ok n' :=
-  reset_resumable_all_stages H hB (run H B ops).1 n' (inv_runFrom hB (inv_fresh H hB) ops)
-    (finv_runFrom hB (inv_fresh H hB) (finv_fresh H) ops hno) hc t bs hreset hbs
+      (∀ j, j < b2.length → recover H B S (foldBatches (b2.take j) d1) = .ok n') ∧
+      recover H B S d2 = .ok n' ∧ recover H B S d3 = .ok n' ∧
+      recover H B S d4 = .ok n' ∧ recover H B S d5 = .ok n' ∧ recover H B S d6 = .ok n' ∧
+      recover H B S n'.db = .ok n' := by
+  intro n b1 d1
+  have hi := inv_runFrom hB (inv_fresh H hB) ops
+  have hf := finv_runFrom hB (inv_fresh H hB) (finv_fresh H) ops hno
+  obtain ⟨b2, d2, x, r, p0, hsb, hd2, hbs', hdb, _, r2, r3, r4, r5, r6⟩ := reset_resumable_all_stages H hB n n' hi hf hc t bs hreset hbs
+  obtain ⟨b2', d2', hsb', hin⟩ := reset_resumable_inside_block_removal H n n' hi hf hc t bs hreset hbs d1 rfl
+  have e : b2' = b2 := by
+    have := hsb'.symm.trans hsb
+    simp at this; exact this.1
+  subst e
+  exact ⟨b2', d2, x, r, p0, hsb, hd2, hbs', hdb, hin, r2, r3, r4, r5, r6, reset_complete_recover H n n' t bs hreset hbs⟩
 
 /-- non-vacuity: the 2-block chain reset to height 1 meets the hypotheses (7 batches). -/
 example : ∃ bs n', reset Hw 2000 200000 (nodeAt 2000 2) 1 = .ok (bs, n') ∧ bs ≠ [] := by
